@@ -94,3 +94,67 @@ func TestVerifBoundedShouldBuild(t *testing.T) {
 	rec(0, "")
 	fmt.Printf("VERIF-BOUNDED: name=ShouldBuild bound=%d cases=%d nontrivial=%d failures=%d first=%q\n", n, cases, nontrivial, fails, first)
 }
+
+// C18: ReadImports agrees with go/parser (ImportsOnly) on generated valid files:
+// same import paths in the same order, and the returned prefix (a byte-order mark
+// aside) still parses to those imports.
+func TestVerifBoundedReadImports(t *testing.T) {
+	n := verifBound(3, 4)
+	boms := []string{"", "\xef\xbb\xbf"}
+	headers := []string{"package p\n", "// c\npackage p;", "/* c */ package p\n\n"}
+	specs := []string{`import "a"` + "\n", `import x "b/c"` + "\n", "import . `d`;", `import _ "e"` + "\n", "import (\n\t\"f\"\n\ty \"g\"\n)\n", "import ( \"h\"; . \"i\" )\n", "// c\n", "/* import \"no\" */\n", "import ()\n"}
+	tails := []string{"", "var x = 1\n", "func f() {}\n", "type T struct{}\n"}
+	cases, nontrivial, fails := 0, 0, 0
+	first := ""
+	var rec func(k int, cur string)
+	check := func(src string) {
+		cases++
+		want, werr := refImports(src)
+		if werr != nil {
+			return // not a valid file: outside the stand-in
+		}
+		var got []string
+		data, err := ReadImports(strings.NewReader(src), true, &got)
+		if len(want) > 0 {
+			nontrivial++
+		}
+		bad := err != nil || len(got) != len(want)
+		for i := 0; !bad && i < len(want); i++ {
+			if got[i] != want[i] {
+				bad = true
+			}
+		}
+		if !bad {
+			// the prefix must still parse to the same imports
+			pre := strings.TrimPrefix(string(data), "\xef\xbb\xbf")
+			if !strings.HasPrefix(strings.TrimPrefix(src, "\xef\xbb\xbf"), pre) {
+				bad = true
+			} else if p2, e2 := refImports(pre); e2 != nil || len(p2) != len(want) {
+				bad = true
+			}
+		}
+		if bad {
+			fails++
+			if first == "" {
+				first = fmt.Sprintf("ReadImports(%q) = imports %q, prefix %q, err %v; go/parser says %q", src, got, data, err, want)
+			}
+		}
+	}
+	rec = func(k int, cur string) {
+		for _, tl := range tails {
+			check(cur + tl)
+		}
+		if k == n {
+			return
+		}
+		for _, s := range specs {
+			rec(k+1, cur+s)
+		}
+	}
+	for _, b := range boms {
+		for _, h := range headers {
+			rec(0, b+h)
+		}
+	}
+	fmt.Printf("VERIF-BOUNDED: name=ReadImports bound=%d cases=%d nontrivial=%d failures=%d first=%q\n", n, cases, nontrivial, fails, first)
+}
